@@ -269,11 +269,13 @@ def r4_csv(ctx):
         v = pf[0].value
         det = ast.unparse(v)
         d = {k: ast.unparse(x) for k, dd in defs.items() for _, x in dd if isinstance(x, ast.AST)}
-        ok = isinstance(v.body, ast.Compare) and isinstance(v.body.ops[0], ast.GtE) and isinstance(v.orelse, ast.Compare) and \
-            isinstance(v.orelse.ops[0], ast.GtE) and \
-            d.get(ast.unparse(v.body.left)) == f"{vv}['SNR-0.1nm (min)']" and d.get(ast.unparse(v.orelse.left)) == f"{vv}['SNR-0.1nm (average)']" and \
-            d.get(ast.unparse(v.body.comparators[0])) == f"{vv}['min required OSNR (inc. margin)']" and \
-            ast.unparse(v.body.comparators[0]) == ast.unparse(v.orelse.comparators[0])
+        # canonical comparison form:  required <= measured
+        ok = isinstance(v.body, ast.Compare) and isinstance(v.body.ops[0], ast.LtE) and isinstance(v.orelse, ast.Compare) and \
+            isinstance(v.orelse.ops[0], ast.LtE) and \
+            d.get(ast.unparse(v.body.comparators[0])) == f"{vv}['SNR-0.1nm (min)']" and \
+            d.get(ast.unparse(v.orelse.comparators[0])) == f"{vv}['SNR-0.1nm (average)']" and \
+            d.get(ast.unparse(v.body.left)) == f"{vv}['min required OSNR (inc. margin)']" and \
+            ast.unparse(v.body.left) == ast.unparse(v.orelse.left)
     ctx.check('R4.csv', f'{site(jc)} pass flag', ok, key(jc, 'pass-flag'),
               'the CSV pass flag is not  worst-channel (else average) SNR-0.1nm >= required OSNR including margin  (equality passes, as in '
               'the planner\'s fixed-mode verdict)', det)
